@@ -1,7 +1,7 @@
 """C02 — namespace fidelity."""
 from props import histprop
 PID = "C02"
-MIX = [("names", {}), ("names", {"nops": 70}), ("dirc", {}), ("full", {}), ("names", {"dostype": 4, "latin": True}), ("names", {"dostype": 5, "latin": True, "nops": 60}), ("chainops", {}), ("names", {"dostype": 2, "latin": True}), ("chainops", {})]
+MIX = [("names", {}), ("names", {"nops": 70}), ("dirc", {}), ("full", {}), ("names", {"dostype": 4, "latin": True}), ("names", {"dostype": 5, "latin": True, "nops": 60}), ("chainops", {}), ("openchain", {}), ("slotsweep", {}), ("names", {"dostype": 2, "latin": True}), ("chainops", {})]
 RULE = ('seeded histories of mkdir/create/remove/rename/move/comment/access/chdir/list over several directories, names drawn from three colliding hash slots (chains of 1..n), case variants, Latin-1 names, renames onto existing names, moves into own subtree, missing sources, non-empty directories; judged against a tree model (failed calls must change nothing) and against the decoded image; distinct by (flavour, length, first 8 ops)')
 def run(res):
     histprop.run(res, PID, MIX, {"C02"}, RULE, nquick=80, nthorough=2000)
